@@ -30,23 +30,16 @@ type VWorld struct {
 }
 
 var VW *VWorld
+var VNoNilAmounts bool
 var vNames = []string{"S", "T", "G", "F"}
 
 func vIdx(a common.Address) byte {
-	if a[0] != 0xa0 {
-		return 0
-	}
+	ok := a[0] == 0xa0
 	for i := 1; i < 19; i++ {
-		if a[i] != 0 {
-			return 0
-		}
+		ok = vAnd(ok, a[i] == 0)
 	}
-	for i := 1; i <= 4; i++ {
-		if a[19] == byte(i) {
-			return byte(i)
-		}
-	}
-	return 0
+	ok = vAnd(ok, vAnd(a[19] >= 1, a[19] <= 4))
+	return byte(vConcretize(int(vIte64(ok, uint64(a[19]), 0)), 0, 8))
 }
 
 func vNonNegBig(name string) *big.Int {
@@ -125,9 +118,14 @@ func (w *VWorld) VBuildTx(txType types.TxType) *types.Transaction {
 		tx.To = (*common.Address)(vNilIf(vBool("tx.to.nil"), unsafe.Pointer(&a)))
 	}
 	// sign arbitrary: rejecting negatives is the validator's job
-	tx.Amount = vOptBigAny("tx.amount")
-	tx.MaxFee = vOptBigAny("tx.maxFee")
-	tx.Tips = vOptBigAny("tx.tips")
+	if VNoNilAmounts {
+		// nil and zero amounts are equivalent for the arithmetic properties; nil-ness itself is C12's subject
+		tx.Amount, tx.MaxFee, tx.Tips = vBig("tx.amount"), vBig("tx.maxFee"), vBig("tx.tips")
+	} else {
+		tx.Amount = vOptBigAny("tx.amount")
+		tx.MaxFee = vOptBigAny("tx.maxFee")
+		tx.Tips = vOptBigAny("tx.tips")
+	}
 	types.VSetSender(tx, w.S)
 	var h common.Hash
 	h[0] = 0x77
